@@ -175,6 +175,23 @@ def mrf_logpdf(c, kind, N, bc, order=1, two_d=False):
     c.eq('logpdf_is_documented_density_of_differences_of_shifted_variable', d.logpdf(x), spec)
 
 
+def mrf_extreme_values(c, kind, N=8, bc='zero'):
+    """machine arithmetic (outside the deductive part): rough vectors of large magnitude and small scales, where a density evaluated outside log space
+    under- or overflows - the log-density is still the documented closed form (bounded check, native)"""
+    n = N
+    geom = cuqi.geometry.Continuous1D(n)
+    loc = np.array([c.real(f'loc{i}') for i in range(n)])
+    x = np.array([c.real(f'x{i}', lo=-1, hi=1) for i in range(n)]) * 2e3            # total variation / scale far beyond 745
+    p = 0.01 + 0.02 * abs(c.real('p', lo=-1, hi=1))
+    d = {'GMRF': lambda: GMRF(loc, 1 / p, bc_type=bc, geometry=geom), 'LMRF': lambda: LMRF(loc, p, bc_type=bc, geometry=geom), 'CMRF': lambda: CMRF(loc, p, bc_type=bc, geometry=geom)}[kind]()
+    Dx = np.array(stencil1d(list(x - loc), bc, 1), dtype=float)
+    if kind == 'GMRF': spec = 0.5 * (d._rank * (np.log(1 / p) - np.log(2 * np.pi)) + d._logdet) - 0.5 / p * np.sum(Dx ** 2)
+    elif kind == 'LMRF': spec = np.sum(-np.log(2 * p) - abs(Dx) / p)
+    else: spec = np.sum(-np.log(np.pi) + np.log(p) - np.log(Dx ** 2 + p ** 2))
+    c.eq('logpdf_is_the_documented_closed_form_also_where_the_density_underflows', d.logpdf(x), spec, tol=1e-9)
+    c.eq('logd_likewise', d.logd(x), spec, tol=1e-9)
+
+
 def mrf_rectangular(c, kind):
     """a 2-D geometry that is not square (2 x 8 pixels): the prior is refused, or it is the density of the finite differences on THAT
     grid (sum over rows of 8 and columns of 2) - never the density of a 4 x 4 image with the same number of pixels"""
@@ -257,4 +274,6 @@ def jobs(tier):
                         J.append(Job(f'{kind}.gradient:order={order}:{bc}:N={N}', lambda c, k=kind, N=N, bc=bc, o=order: mrf_gradient(c, k, N, bc, o), 'Pbox',
                                      [f'{mod}:{kind}._gradient'], rtol=1e-4))
             J.append(Job(f'{kind}.logpdf2D:{bc}:N=3x3', lambda c, k=kind, bc=bc: mrf_logpdf(c, k, 3, bc, 1, True), 'Pbox', [f'{mod}:{kind}.logpdf'] + FO))
+    for kind in ('GMRF', 'LMRF', 'CMRF'):
+        J.append(Job(f'{kind}.logpdf:extreme_values', lambda c, k=kind: mrf_extreme_values(c, k), 'B', [f'cuqi.distribution._{kind.lower()}:{kind}.logpdf'], nnum=3))
     return J
